@@ -6,7 +6,6 @@ Theorems about `Uniflow.Table` (model of `pkg/symbol/table.go`): `loadLoop` / `u
 the loops of `Table.load` / `Table.unload` over `Table.linked`, `exec` is the synchronous
 lifecycle flow.  All statements hold for every iteration order `o`, every state and every list.
 -/
-import Uniflow.Generated.Lifecycle
 import Uniflow.Proofs.Table
 
 namespace Uniflow.Table
@@ -399,16 +398,3 @@ def C08.deps_first_full : Prop :=
     ∀ (i j : Nat) (x y : Sym), l[i]? = some x → l[j]? = some y →
       (∃ np ∈ y.ports, ∃ r ∈ np.2, aget (resolve st y.ns r) st.symbols = some x ∧ x.ns = y.ns) →
       i < j
-
-/-! ## Call order of `(*Table).load` / `unload` tied to the source
-
-`Model/Table.lean` transcribes `load` as: for each symbol of `linked` in order, if activated:
-init flow, load hooks, begin flow; `unload` walks `linked` in reverse: term flow, unload hooks,
-final flow. `Generated/Lifecycle.lean` is regenerated from table.go on every run. -/
-open Uniflow.Generated.Lifecycle in
-theorem C08.lifecycle_calls_as_modelled :
-    loadDirection = "forward" ∧
-    loadCalls = ["linked", "isActivated", "exec:node.PortInit", "hooks:t.loadHooks.Load", "exec:node.PortBegin"] ∧
-    unloadDirection = "reverse" ∧
-    unloadCalls = ["linked", "isActivated", "exec:node.PortTerm", "hooks:t.unloadHooks.Unload", "exec:node.PortFinal"] := by
-  decide
